@@ -439,6 +439,30 @@ func (an *Analysis) decide(c *Call) (deciding *vnet.Ev, exp model.Expect) {
 	for i := range c.Reads {
 		d := &c.Reads[i]
 		full := d.Note == fmt.Sprint(d.N) // not truncated by the caller's buffer
+		if c.Route.Path == "tcp" && i == 0 && d.N < 64 && strings.Contains(d.Dst, "#") {
+			// the peer's reply left it in several TCP segments and the first read returned only part of it. The
+			// statement lets a wrong-length message fail the call; an implementation that reads on until it has
+			// 64 bytes is not wrong either - then the result must be the decoding of the reassembled message
+			var buf []byte
+			for _, r := range c.Reads {
+				buf = append(buf, r.Data...)
+			}
+			if len(buf) >= 64 {
+				buf = buf[:64]
+				if model.Serial(buf) == S && model.HeaderOK(c.St.Op, buf) {
+					exp := model.Decode(c.St.Op, &c.St.Args, buf, ctx)
+					if exp.Fail == 0 {
+						exp.Fail = 1
+					}
+					exp.Why += " reassembled from TCP segments"
+					whole := *d
+					whole.Data, whole.N = buf, 64
+					return &whole, exp
+				}
+			}
+			e := mustFail("first message on a directed path is not a 64-byte message from the addressed controller")
+			return d, e
+		}
 		passes := d.N == 64 && full && len(d.Data) == 64 && model.Serial(d.Data) == S
 		if c.Route.Path == "broadcast" && !passes {
 			continue // ignored: the call keeps waiting
